@@ -1,7 +1,11 @@
 // Harness for announce admission / throttle (C21) and inbound handshakes (C20).
-// Real Node (no listeners), virtual clock, Node.cpp #included so that the real validators of its
-// anonymous namespace (announce_pow_valid, handshake_pow_valid, manifest_ttl, validate_shards,
-// sanitize_config) can be called independently of handle_announce / perform_handshake.
+// Real Node (no listeners), virtual clock.  Everything goes through Node / SessionManager / KeyExchange members and
+// public functions, with one exception kept behind VERIF_INTERNALS (default 1): with internals, Node.cpp is
+// #included and three validators of its anonymous namespace (handshake_pow_valid, manifest_ttl, validate_shards)
+// measure the validity facts independently of perform_handshake / handle_announce.  Without internals
+// (-DVERIF_INTERNALS=0, chosen by the plugin when those names no longer exist) the same facts come from an oracle
+// Node with cooldown 0 (perform_handshake's verdict on a valid key = PoW validity) and from the property's own
+// statement of "threshold met" / "unexpired"; every op stays available.
 //
 // Ops (one output line each; every case starts with a `cfg` line):
 //   cfg mi=<s> bw=<s> bl=<n> diff=<d> cd=<s> hdiff=<d>
@@ -18,12 +22,24 @@
 //   th <peer> <pub> <ntok> <reqver>            handle_transport_handshake
 //   sock <peer> <pub> <ntok>                   SessionManager::handle_pending_handshake over a socketpair
 //        ntok: g g2 (valid nonces) b b2 (invalid nonces) o (valid for another claimed peer, invalid here)
-//        -> r=<0/1> kv=<0/1> pv=<0/1> sk=<pub|-> sm=<pub|-> rep=<n> ls=<1/0/-> [ack=<0/1> conn=<0/1>]
+//        -> r=<0/1> kv=<0/1> pv=<0/1|-> sk=<pub|-> sm=<pub|-> rep=<n> ls=<1/0/-> [ack=<0/1> conn=<0/1>]
 #include "common/lineproto.hpp"
 #include "common/vclock.hpp"
 
-#include "ephemeralnet/crypto/HmacSha256.hpp"
+#ifndef VERIF_INTERNALS
+#define VERIF_INTERNALS 1
+#endif
+#if VERIF_INTERNALS
 #include "core/Node.cpp"  // the repository's src/core/Node.cpp (anonymous-namespace validators)
+#endif
+#include "ephemeralnet/core/Node.hpp"
+#include "ephemeralnet/crypto/ChaCha20.hpp"
+#include "ephemeralnet/crypto/HmacSha256.hpp"
+#include "ephemeralnet/crypto/Sha256.hpp"
+#include "ephemeralnet/network/KeyExchange.hpp"
+#include "ephemeralnet/network/SessionManager.hpp"
+#include "ephemeralnet/protocol/Manifest.hpp"
+#include "ephemeralnet/protocol/Message.hpp"
 
 #include <sys/socket.h>
 #include <sys/types.h>
@@ -48,7 +64,9 @@ namespace vh {
 using namespace ephemeralnet;
 
 std::unique_ptr<Node> node;
+std::unique_ptr<Node> oracle;                      // VERIF_INTERNALS=0: same id and difficulty, cooldown 0
 std::map<std::string, std::uint32_t> key_to_pub;  // hex of derived session key -> offered public key
+std::map<std::string, std::uint64_t> nonce_cache; // peer/pub/token -> nonce
 std::string cfg_line;
 
 PeerId self_id() { return verif::id32("s1"); }
@@ -70,9 +88,47 @@ void make_node(const std::vector<std::string>& t) {
     c.handshake_cooldown = std::chrono::seconds(kv_get(t, "cd", 5));
     c.handshake_pow_difficulty = static_cast<std::uint8_t>(kv_get(t, "hdiff", 2));
     node.reset();
+    oracle.reset();
     node = std::make_unique<Node>(self_id(), c);
+#if !VERIF_INTERNALS
+    Config oc = c;
+    oc.handshake_cooldown = std::chrono::seconds(0);
+    oracle = std::make_unique<Node>(self_id(), oc);
+#endif
     key_to_pub.clear();
+    nonce_cache.clear();
 }
+
+// PoW validity of (claimed peer, this node, key, nonce) at the configured difficulty, for a VALID key
+bool handshake_work_ok(const PeerId& peer, std::uint32_t pub, std::uint64_t n) {
+#if VERIF_INTERNALS
+    return handshake_pow_valid(peer, node->id(), pub, n, node->config_.handshake_pow_difficulty);
+#else
+    return oracle->perform_handshake(peer, pub, n);   // cooldown 0: never short-circuits; key valid => verdict = PoW
+#endif
+}
+
+// the facts "shares meet the threshold" / "unexpired (and not below the minimum manifest TTL)"
+bool fact_threshold(const protocol::Manifest& m) {
+#if VERIF_INTERNALS
+    return validate_shards(m);
+#else
+    return m.threshold > 0 && m.shards.size() >= m.threshold;
+#endif
+}
+bool fact_unexpired(const protocol::Manifest& m) {
+#if VERIF_INTERNALS
+    return manifest_ttl(m, node->config_).has_value();
+#else
+    const auto now = std::chrono::system_clock::now();
+    if (m.expires_at <= now) return false;
+    const auto ttl = std::chrono::duration_cast<std::chrono::seconds>(m.expires_at - now);
+    return ttl > std::chrono::seconds(0) && ttl >= node->config_.min_manifest_ttl;
+#endif
+}
+
+// Node::verify_announce_pow at version 4 = announce_pow_valid(payload, difficulty) (true at difficulty 0)
+bool announce_work_ok(const protocol::AnnouncePayload& p) { return node->verify_announce_pow(p, 4); }
 
 std::string sanitised() {
     const auto& c = node->config_;
@@ -185,7 +241,7 @@ std::string op_ann(const std::vector<std::string>& t) {
     const auto diff = node->config_.announce_pow_difficulty;
     if (has(flags, 'W') && diff > 0) {
         std::uint64_t n = 0;
-        for (;; ++n) { p.work_nonce = n; if (!announce_pow_valid(p, diff)) break; }
+        for (;; ++n) { p.work_nonce = n; if (!announce_work_ok(p)) break; }
     } else if (!node->apply_announce_pow(p)) {
         return "pow-solver-failed";
     }
@@ -193,14 +249,14 @@ std::string op_ann(const std::vector<std::string>& t) {
     // facts, evaluated with the real validators independently of handle_announce
     const bool f_sm = p.peer_id == sender;
     const bool f_ne = !p.manifest_uri.empty();
-    const bool f_pv = announce_pow_valid(p, diff);
+    const bool f_pv = announce_work_ok(p);
     bool f_dec = false, f_idm = false, f_thr = false, f_unx = false, f_asg = false;
     protocol::Manifest decoded{};
     try { decoded = protocol::decode_manifest(p.manifest_uri); f_dec = true; } catch (const std::exception&) {}
     if (f_dec) {
         f_idm = decoded.chunk_id == p.chunk_id;
-        f_thr = validate_shards(decoded);
-        f_unx = manifest_ttl(decoded, node->config_).has_value();
+        f_thr = fact_threshold(decoded);
+        f_unx = fact_unexpired(decoded);
         f_asg = std::all_of(p.assigned_shards.begin(), p.assigned_shards.end(), [&](std::uint8_t i) {
             return std::any_of(decoded.shards.begin(), decoded.shards.end(), [&](const protocol::KeyShard& s) { return s.index == i; });
         });
@@ -252,20 +308,21 @@ std::string op_ann(const std::vector<std::string>& t) {
 }
 
 // --------------------------------------------------------------------------------- handshakes
-std::uint64_t nonce_for(const PeerId& peer, std::uint32_t pub, const std::string& tok) {
+std::uint64_t nonce_for_uncached(const PeerId& peer, std::uint32_t pub, const std::string& tok) {
     const auto diff = node->config_.handshake_pow_difficulty;
-    const PeerId self = node->id();
-    auto valid = [&](std::uint64_t n) { return handshake_pow_valid(peer, self, pub, n, diff); };
-    if (diff == 0) {
+    const bool key_ok = network::KeyExchange::validate_public(pub);
+    // an invalid key is refused whatever the nonce: only distinct values are needed
+    if (diff == 0 || !key_ok) {
         if (tok == "g") return 0;
         if (tok == "g2") return 1;
         if (tok == "b") return 1000;
         if (tok == "b2") return 1001;
         return 2000;
     }
+    auto valid = [&](std::uint64_t n) { return handshake_work_ok(peer, pub, n); };
     if (tok == "g" || tok == "g2") {
         std::uint64_t n = 0;
-        if (!compute_handshake_pow(peer, self, pub, diff, n)) throw std::runtime_error("handshake pow solver failed");
+        for (;; ++n) if (valid(n)) break;
         if (tok == "g") return n;
         for (++n;; ++n) if (valid(n)) return n;
     }
@@ -278,13 +335,30 @@ std::uint64_t nonce_for(const PeerId& peer, std::uint32_t pub, const std::string
     // "o": valid for another claimed peer, invalid for this one
     const PeerId other = verif::id32("q99");
     for (std::uint64_t n = 5000;; ++n) {
-        if (handshake_pow_valid(other, self, pub, n, diff) && !valid(n)) return n;
+        if (handshake_work_ok(other, pub, n) && !valid(n)) return n;
     }
+}
+
+std::uint64_t nonce_for(const PeerId& peer, std::uint32_t pub, const std::string& tok) {
+    const std::string k = verif::to_hex(peer) + "/" + std::to_string(pub) + "/" + tok;
+    const auto it = nonce_cache.find(k);
+    if (it != nonce_cache.end()) return it->second;
+    const auto n = nonce_for_uncached(peer, pub, tok);
+    nonce_cache[k] = n;
+    return n;
+}
+
+// the key material layout of the handshake: both public keys, ascending, big-endian (C12's model states it)
+std::array<std::uint8_t, 8> handshake_material(std::uint32_t a, std::uint32_t b) {
+    if (a > b) std::swap(a, b);
+    std::array<std::uint8_t, 8> m{};
+    for (int i = 0; i < 4; ++i) { m[i] = static_cast<std::uint8_t>(a >> (24 - 8 * i)); m[4 + i] = static_cast<std::uint8_t>(b >> (24 - 8 * i)); }
+    return m;
 }
 
 std::array<std::uint8_t, 32> derive_for(std::uint32_t pub) {
     const auto secret = network::KeyExchange::derive_shared_secret(node->identity_scalar_, pub);
-    const auto material = make_handshake_material(node->identity_public_, pub);
+    const auto material = handshake_material(node->public_identity(), pub);
     return crypto::HmacSha256::compute(std::span<const std::uint8_t>(secret.bytes), material);
 }
 
@@ -313,8 +387,9 @@ std::string op_handshake(const std::vector<std::string>& t) {
     const auto nonce = nonce_for(peer, pub, t[3]);
     learn_pub(pub);
     const bool kv = network::KeyExchange::validate_public(pub);
-    const bool pv = handshake_pow_valid(peer, node->id(), pub, nonce, node->config_.handshake_pow_difficulty);
-    const std::string facts = std::string(" kv=") + (kv ? "1" : "0") + " pv=" + (pv ? "1" : "0");
+    // nonce validity is measured for valid keys only (an invalid key is refused before the nonce matters)
+    const std::string pv = !kv ? "-" : (node->config_.handshake_pow_difficulty == 0 || handshake_work_ok(peer, pub, nonce)) ? "1" : "0";
+    const std::string facts = std::string(" kv=") + (kv ? "1" : "0") + " pv=" + pv;
 
     if (t[0] == "hs") {
         const bool r = node->perform_handshake(peer, pub, nonce);
@@ -401,6 +476,7 @@ int main(int argc, char** argv) {
     h.reset = [] {
         verif::vclock_set(verif::kVclockStart);
         vh::node.reset();
+        vh::oracle.reset();
     };
     h.op = [](const std::vector<std::string>& t, const std::string&) -> std::string {
         if (t[0] == "cfg") { vh::make_node(t); return vh::sanitised(); }
@@ -420,5 +496,6 @@ int main(int argc, char** argv) {
     std::cerr.tie(nullptr);
     const int rc = verif::run_lines(argc, argv, h);
     vh::node.reset();
+    vh::oracle.reset();
     return rc;
 }
